@@ -412,3 +412,21 @@ Proof.
   - inversion He; subst. auto.
   - inversion He; subst. right. auto.
 Qed.
+
+(* the conditional invalidation of the repaired uv__poll_stop / UV_EBADF stop *)
+Lemma iuw_same s fd :
+  let s' := invalidate_unless_watched s fd in
+  hs s' = hs s /\ reg s' = reg s /\ wq s' = wq s /\
+  npw s' = npw s /\ pend s' = pend s /\ prun s' = prun s /\ sq s' = sq s /\ ring s' = ring s /\
+  strict s' = strict s /\ aborted s' = aborted s /\ fdt s' = fdt s /\ pairs s' = pairs s.
+Proof.
+  unfold invalidate_unless_watched. destruct (fd_exists s fd); cbv zeta; [split_all; reflexivity|].
+  destruct (invalidate_same s fd) as [A [B [C [_ [D [E [F [G [H [I [J [K L]]]]]]]]]]]]. split_all; auto.
+Qed.
+
+Lemma iuw_cases s fd :
+  (reg s fd <> None /\ invalidate_unless_watched s fd = s) \/
+  (reg s fd = None /\ invalidate_unless_watched s fd = invalidate s fd).
+Proof.
+  unfold invalidate_unless_watched, fd_exists. destruct (reg s fd); [left; split; [discriminate|auto]|right; auto].
+Qed.
